@@ -646,6 +646,8 @@ def cases(env, tier):
             yield ["nosrc", which, verb, utf8, ignore, ansi]
     for verb1, verb2, utf8, ansi, recreate in itertools.product(VERB, VERB, (True, False), (False, True), (False, True)):
         yield ["vanish", verb1, verb2, utf8, ansi, recreate]
+    for which, verb, utf8, ansi in itertools.product(sorted(FOREIGN_TEXTS), VERB, (True, False), (False, True)):
+        yield ["foreign", which, verb, utf8, ansi]
     for name, verb, ansi, as_home in itertools.product(CWD_NAMES, VERB, (False, True), (False, True)):
         yield ["cwd", name, verb, ansi, as_home]
     for where, verb1, verb2, utf8a, utf8b, ansi in itertools.product(("app", "lib"), VERB, VERB, (True, False), (True, False), (False, True)):
@@ -725,6 +727,38 @@ def run_rerender(env, case):
     return v
 
 
+FOREIGN_TEXTS = {
+    "html-apostrophe": "<html>\n  <p>It's {{ value }</p>\n  {% for x in items %}\n</html>\n",
+    "open-bracket": "rules:\n  - match: [a, b\n  - then: (x\n\n\n",
+    "bad-indent": "section\n      deep\n   back\n  again\n",
+    "markup": "<b>bold</info> <fg=nope> \\</b>\nline two\nline three\n",
+    "empty": "",
+}
+
+
+def run_foreign(env, case):
+    """Code compiled under the file name of a text file that is not Python (what template engines do): the frame
+    points into that file.  Demanded: renders, names the class, shows the message."""
+    _, which, verb, utf8, ansi = case
+    path = os.path.join(env.app, "foreign_%s_%d.txt" % (which, os.getpid()))
+    with open(path, "wb") as f:
+        f.write(FOREIGN_TEXTS[which].encode())
+    try:
+        code = compile("\n\ndef tmpl(make):\n    raise make()\n", path, "exec")
+        g = {}
+        exec(code, g)
+        try:
+            env.helper["call"](g["tmpl"], lambda: ValueError("x"))
+        except Exception as e:
+            exc = own_frames_removed(e)
+        v = check_render(env, case, exc, verb, utf8, "none", ansi, False, minimal=True)
+    finally:
+        os.unlink(path)
+    if v:
+        v["sig"] = "foreign-file:" + v["sig"]
+    return v
+
+
 CWD_NAMES = ["reports [old-2019]", "a(b", "x*y?", "c++", "back\\slash", "dots.and$"]
 
 
@@ -756,6 +790,8 @@ def run_case(env, case):
     kind = case[0]
     if kind == "cwd":
         return run_cwd(env, case)
+    if kind == "foreign":
+        return run_foreign(env, case)
     if kind == "vanish":
         return run_vanish(env, case)
     if kind == "rerender":
